@@ -60,7 +60,7 @@ base_fail, base_tail = failing(ROOT / "wt0")
 print("baseline:", base_tail, flush=True)
 jobs = []
 if str(src) == "stored":  # re-run the changes kept under /verif/benign (names = prefixes, none = all)
-    jobs = [d for d in sorted(BEN.iterdir()) if d.is_dir() and (not names or any(d.name.startswith(n) for n in names)) and (ONLY is None or d.name in ONLY)]
+    jobs = [d for d in sorted(BEN.iterdir()) if d.is_dir() and f"_{WAVE}_" in d.name and (not names or any(d.name.startswith(n) for n in names)) and (ONLY is None or d.name in ONLY)]
     names = []
 for n in names:
     for bd in sorted((src / n).glob("benign_*")):
